@@ -251,7 +251,11 @@ func (fs *ReaderFS) writeFile(path string, info hackpadfs.FileInfo, initialBuf *
 		return fserrors.WithMessage(err, "opening destination file")
 	}
 	defer func() {
-		_ = f.Close()
+		closeErr := f.Close()
+		if returnedErr == nil {
+			// the file is only complete once it's closed without error
+			returnedErr = fserrors.WithMessage(closeErr, "closing destination file")
+		}
 		if returnedErr == nil {
 			fs.ps.Emit(path) // only emit for non-dirs, dirs will wait until the total tar read completes to ensure correctness
 		}
